@@ -1,10 +1,18 @@
 """C09: Lean theorems of Props/C09.lean on the executable model + K2 correspondence (DESIGN.md 6/C09, 12)."""
+import json
+
 import k2check
+import k5check
 
 
 def run(tier):
-    return k2check.run("C09", tier, profile="locked")
+    # "begin()==end() iff the table is empty" must also survive FAILED locked insertions (K5 fault scenarios; only findings
+    # classified for C09)
+    return k2check.run("C09", tier, profile="locked", phases=[k5check.k5_phase_for("C09")])
 
 
 def replay(path):
+    d = json.load(open(path))
+    if any(f.get("harness") == "k5" for f in d.get("failing_inputs", [])):
+        return k5check.replay("C09", path)
     return k2check.replay("C09", path)
